@@ -57,7 +57,8 @@ class DiskMixin:
         super().build()
         # forget the in-memory materialisation: the engine is what is on disk
         builtins.__import__ = _REAL['import']  # a previous run's RollbackImporter (process-global hook) is gone
-        for k in [k for k in sys.modules if k == self.spec.base or k.startswith(self.spec.base + '.')]:
+        top = self.spec.base.split('.')[0]  # (a dotted base package: its in-memory parent packages go as well)
+        for k in [k for k in sys.modules if k == top or k.startswith(top + '.')]:
             del sys.modules[k]
         self.root = os.path.join(self.dir, 'ae')
         sys.path[:] = [p for p in sys.path if not p.startswith('/dev/shm/verif-')]
